@@ -484,6 +484,16 @@ func Emit(p *ps.Program, pkg, fnsPkg string) *Files {
 		dirName = fmt.Sprintf("d%d", p.PID)
 	}
 
+	// ----- an auxiliary directive of the other kind before the program's own one (every fourth
+	// program): files with several directives, a Parallel before a Flow and vice versa
+	if p.PID%4 == 2 && (p.Quirk == "" || p.Quirk == "timealias" || p.Quirk == "params2") && strings.HasPrefix(p.Stream, "wf") {
+		if p.Kind == "flow" {
+			e.w("func extraP%d(cx context.Context) error {\n\treturn cff.Parallel(cx, cff.Task(func() {}))\n}\n\n", p.PID)
+		} else {
+			e.w("func extraP%d(cx context.Context) (n int64, err error) {\n\terr = cff.Flow(cx, cff.Results(&n), cff.Task(func() int64 { return 7 }))\n\treturn\n}\n\n", p.PID)
+		}
+	}
+
 	// ----- enclosing function
 	fn := fmt.Sprintf("RunP%d", p.PID)
 	cx := "cx"
@@ -646,6 +656,12 @@ func Emit(p *ps.Program, pkg, fnsPkg string) *Files {
 		e.w("\t)\n")
 		recordResults("\t")
 		e.w("\treturn %s\n}\n", errVar)
+	}
+
+	// ----- a very long physical line (a one-line data literal of 70,000 bytes) after the
+	// directive in every seventh program: line-oriented post-processing must not lose it
+	if p.PID%7 == 5 {
+		e.w("\nvar _ = len(\"%s\")\n", strings.Repeat("x", 70000))
 	}
 
 	// ----- assemble main file; line numbers shift by the header length.
